@@ -191,11 +191,38 @@ BMPString_decode_xer(const asn_codec_ctx_t *opt_codec_ctx,
 	return rc;
 }
 
+/*
+ * XER: the UTF-8 text produced by BMPString__dump() goes out with the
+ * escaping of the other restricted character strings (X.680, #11.15).
+ */
+struct BMPString__xer_arg {
+	const asn_TYPE_descriptor_t *td;
+	asn_app_consume_bytes_f *cb;
+	void *app_key;
+	ssize_t encoded;
+};
+static int
+BMPString__xer_escape(const void *buffer, size_t size, void *key) {
+	struct BMPString__xer_arg *arg = (struct BMPString__xer_arg *)key;
+	OCTET_STRING_t utf8;
+	asn_enc_rval_t er;
+
+	memset(&utf8, 0, sizeof(utf8));
+	utf8.buf = (uint8_t *)(uintptr_t)buffer;	/* Not modified */
+	utf8.size = size;
+	er = OCTET_STRING_encode_xer_utf8(arg->td, &utf8, 0, XER_F_BASIC,
+		arg->cb, arg->app_key);
+	if(er.encoded < 0) return -1;
+	arg->encoded += er.encoded;
+	return 0;
+}
+
 asn_enc_rval_t
 BMPString_encode_xer(const asn_TYPE_descriptor_t *td, const void *sptr,
                      int ilevel, enum xer_encoder_flags_e flags,
                      asn_app_consume_bytes_f *cb, void *app_key) {
     const BMPString_t *st = (const BMPString_t *)sptr;
+	struct BMPString__xer_arg arg;
 	asn_enc_rval_t er;
 
 	(void)ilevel;
@@ -204,8 +231,13 @@ BMPString_encode_xer(const asn_TYPE_descriptor_t *td, const void *sptr,
 	if(!st || !st->buf)
 		ASN__ENCODE_FAILED;
 
-	er.encoded = BMPString__dump(st, cb, app_key);
-	if(er.encoded < 0) ASN__ENCODE_FAILED;
+	arg.td = td;
+	arg.cb = cb;
+	arg.app_key = app_key;
+	arg.encoded = 0;
+	if(BMPString__dump(st, BMPString__xer_escape, &arg) < 0)
+		ASN__ENCODE_FAILED;
+	er.encoded = arg.encoded;
 
 	ASN__ENCODED_OK(er);
 }
